@@ -1275,15 +1275,19 @@ type purityResult struct {
 	stats   struct{ activations, writes, freshWrites, writeSites int }
 }
 
-func (p *Prog) purityResult() *purityResult {
-	if p.pur != nil {
-		return p.pur
+// purityResult analyses the public roots whose name passes filter (nil = all); results are cached per root.
+func (p *Prog) purityResult(filter func(string) bool) *purityResult {
+	if p.pur == nil {
+		p.pur = &purityResult{effects: map[string][]*effect{}, globals: map[string][]*effect{}, undec: map[string][]*effect{}, iters: map[string]int{}}
+		p.pur.roots = publicRoots(p)
 	}
-	r := &purityResult{effects: map[string][]*effect{}, globals: map[string][]*effect{}, undec: map[string][]*effect{}, iters: map[string]int{}}
-	r.roots = publicRoots(p)
+	r := p.pur
 	pu := newPurity(p)
 	for _, fn := range r.roots {
 		if f := os.Getenv("QF_ROOT"); f != "" && !strings.Contains(fname(fn), f) {
+			continue
+		}
+		if _, done := r.iters[fname(fn)]; done || filter != nil && !filter(fname(fn)) {
 			continue
 		}
 		t0 := time.Now()
@@ -1303,8 +1307,10 @@ func (p *Prog) purityResult() *purityResult {
 	for _, e := range pu.undec {
 		r.undec[e.Root] = append(r.undec[e.Root], e)
 	}
-	r.stats.activations, r.stats.writes, r.stats.freshWrites, r.stats.writeSites = pu.stats.activations, pu.stats.writes, pu.stats.freshWrites, len(pu.writeSites)
-	p.pur = r
+	r.stats.activations += pu.stats.activations
+	r.stats.writes += pu.stats.writes
+	r.stats.freshWrites += pu.stats.freshWrites
+	r.stats.writeSites += len(pu.writeSites)
 	return r
 }
 
@@ -1322,11 +1328,27 @@ func fmtEffects(es []*effect) string {
 	return strings.Join(parts, "; ")
 }
 
-func runR1(c *Ctx) {
+func runR1(c *Ctx) { runPurity(c, nil) }
+
+// purityRule registers a restriction of R1 to the public roots of one operation family.
+func purityRule(id, name string, floor int, roots ...string) {
+	set := map[string]bool{}
+	for _, r := range roots {
+		set[r] = true
+	}
+	register(&Rule{ID: id, Name: name, Floor: floor,
+		Text: "R1 PURITY restricted to the public roots " + strings.Join(roots, ", ") + ": none of them writes memory that existed before the call (the index, column slices and maps handed to the operation are copied before being changed)",
+		Run:  func(c *Ctx) { runPurity(c, func(n string) bool { return set[n] }) }})
+}
+
+func runPurity(c *Ctx, filter func(string) bool) {
 	p := c.P
-	r := p.purityResult()
+	r := p.purityResult(filter)
 	for _, fn := range r.roots {
 		name := fname(fn)
+		if filter != nil && !filter(name) {
+			continue
+		}
 		key := name + "|root"
 		pos := p.pos(fn.Pos())
 		if why, ok := r1RootExempt[name]; ok {
@@ -1351,7 +1373,7 @@ func runR1(c *Ctx) {
 
 func runR2(c *Ctx) {
 	p := c.P
-	r := p.purityResult()
+	r := p.purityResult(nil)
 	nBad := 0
 	for _, fn := range r.roots {
 		name := fname(fn)
@@ -1395,4 +1417,11 @@ func runR2(c *Ctx) {
 			c.undecided("module|"+name, "-", fmt.Sprintf("%d found (%s): the library now has internal concurrency or shared generators; the static race-freedom argument no longer applies as stated", n, strings.Join(where, ", ")))
 		}
 	}
+}
+
+func init() {
+	purityRule("R1s", "PURITY-SORT", 1, "(qframe.QFrame).Sort")
+	purityRule("R1g", "PURITY-GROUP", 4, "(qframe.QFrame).GroupBy", "(qframe.Grouper).Aggregate", "(qframe.Grouper).QFrames", "(qframe.QFrame).Distinct")
+	purityRule("R1a", "PURITY-APPLY", 4, "(qframe.QFrame).Apply", "(qframe.QFrame).FilteredApply", "(qframe.QFrame).WithRowNums", "(qframe.QFrame).Eval")
+	purityRule("R1n", "PURITY-PROJECT", 6, "qframe.New", "(qframe.QFrame).Select", "(qframe.QFrame).Drop", "(qframe.QFrame).Slice", "(qframe.QFrame).Copy", "(qframe.QFrame).Filter")
 }
